@@ -320,6 +320,8 @@ func fixedOrder() []string {
 }
 
 func runC13(c *Ctx) {
+	withStd = true
+	defer func() { withStd = false }()
 	n, per := 1500, 8
 	if c.Thorough {
 		n, per = 20000, 0
@@ -413,6 +415,33 @@ func runC13(c *Ctx) {
 		if nfail >= 2 {
 			c.Nontrivial(J{"p": o.pc.Pod.Name, "l": o.level, "m": o.minor})
 			c.Tag("multiViolation")
+		}
+		// "lists each violated control": the controls the Standard's own evaluator finds violated on this pod are exactly the
+		// ones the real evaluator reports (a control must not fall silent because another one also fires)
+		if o.hasStd && o.valid && o.leanOK {
+			want, got := map[string]bool{}, map[string]bool{}
+			for _, r := range o.std {
+				if !r.Allowed {
+					want[strings.Split(r.Rev, "@")[0]] = true
+				}
+			}
+			for _, r := range o.goRes {
+				if !r.Allowed {
+					got[strings.Split(r.Rev, "@")[0]] = true
+				}
+			}
+			for id := range want {
+				if !got[id] {
+					c.Violate(Finding{Desc: fmt.Sprintf("violated control %s is not listed at %s (reported: %s)", id, verName(o.level, o.minor), bits(o.goRes)), Key: "control-missing",
+						Input: J{"level": o.level, "minor": o.minor, "pod": o.pc.Pod}, Go: bits(o.goRes), Lean: bits(o.std)})
+				}
+			}
+			for id := range got {
+				if !want[id] {
+					c.Violate(Finding{Desc: fmt.Sprintf("control %s is listed at %s although the pod does not violate it", id, verName(o.level, o.minor)), Key: "control-spurious",
+						Input: J{"level": o.level, "minor": o.minor, "pod": o.pc.Pod}, Go: bits(o.goRes), Lean: bits(o.std)})
+				}
+			}
 		}
 		if o.leanOK && canon(o.goRes) != canon(o.lean) {
 			c.Disagree(Finding{Desc: fmt.Sprintf("evalPod %s: reason/detail bytes differ", verName(o.level, o.minor)), Input: J{"level": o.level, "minor": o.minor, "pod": o.pc.Pod}, Go: o.goRes, Lean: o.lean})
